@@ -34,10 +34,9 @@ def check_sizes(ctx, t, what, obj, write, build, ref_len=None):
         ctx.fail(f"{what}/nBytes-vs-written", f"{what}: nBytes says {int(nb)}, encoding wrote {len(w)} bytes")
     if ref_len is not None and ref_len != len(w):
         ctx.fail(f"{what}/written-vs-reference", f"{what}: wrote {len(w)} bytes, the layout needs {ref_len}")
-    stream = io.BytesIO(w + SENTINEL)
-    ok, _ = ctx.must(lambda: build(stream), f"{what}/decode", f"decoding {what}")
-    if ok and stream.tell() != len(w):
-        ctx.fail(f"{what}/consumed-vs-written", f"{what}: decode consumed {stream.tell()} of {len(w)} bytes written")
+    ok, res = ctx.must(lambda: specs.consume(build, w, SENTINEL), f"{what}/decode", f"decoding {what}")
+    if ok and res[1] != len(w):
+        ctx.fail(f"{what}/consumed-vs-written", f"{what}: decode consumed {res[1]} of {len(w)} bytes written")
     return w
 
 
